@@ -1285,6 +1285,10 @@ class _Streamer(mcasm.Streamer):
         if self._state.current_block.size:
             return False
 
+        # An alignment directive in between applies to the NUL.
+        if self._state.current_block in self._state.current_section.alignment:
+            return False
+
         if len(self._state.current_section.blocks) < 2:
             return False
 
